@@ -1,8 +1,11 @@
 #!/bin/bash
-# runs every registered check (default: quick tier) on /repo's working tree; prints one line each
+# runs every registered check (default: quick tier; optional list of ids after the tier) on /repo's working tree; prints one line each
 tier=${1:-quick}
 cd "$(dirname "$0")/.."
-for id in $(python3 -c "import json; print(' '.join(c['property_id'] for c in json.load(open('MANIFEST.json'))['checks']))"); do
+shift
+ids="$*"
+[ -z "$ids" ] && ids=$(python3 -c "import json; print(' '.join(c['property_id'] for c in json.load(open('MANIFEST.json'))['checks']))")
+for id in $ids; do
   s=$(date +%s); out=$(./check $id --tier $tier 2>&1); rc=$?
   echo "$id rc=$rc $(( $(date +%s) - s ))s | $(echo "$out" | grep -E "^C[0-9]+ (quick|thorough):" | tail -1)"
   echo "$out" | grep -E "^(VIOLATION|MACHINERY)" | head -3
